@@ -124,6 +124,53 @@ func roundRobin() *sched.Instance {
 	return inst
 }
 
+// roundRobinRefusedAdmin: administration calls that are REFUSED (an invalid weight for a member, alone or after a
+// valid option; removal of an unknown server) overlap requests. A refused call changes nothing - and touches nothing
+// a request reads outside the balancer's lock.
+func roundRobinRefusedAdmin(viaRebalancer bool) *sched.Instance {
+	c := &counter{}
+	rr, _ := roundrobin.New(okHandler(c, false))
+	a, b := mustURL("http://a"), mustURL("http://b")
+	var front interface {
+		http.Handler
+		UpsertServer(*url.URL, ...roundrobin.ServerOption) error
+		RemoveServer(*url.URL) error
+		Servers() []*url.URL
+	} = rr
+	if viaRebalancer {
+		rb, err := roundrobin.NewRebalancer(rr)
+		if err != nil {
+			panic(err)
+		}
+		front = rb
+	}
+	front.UpsertServer(a)
+	front.UpsertServer(b, roundrobin.Weight(2))
+	var errs [3]error
+	inst := &sched.Instance{Names: []string{"req1", "req2", "refused-admin"}}
+	inst.Bodies = []func(){
+		func() { serve(front); serve(front) },
+		func() { serve(front) },
+		func() {
+			errs[0] = front.UpsertServer(mustURL("http://b"), roundrobin.Weight(-1))
+			errs[1] = front.UpsertServer(mustURL("http://a"), roundrobin.Weight(3), roundrobin.Weight(-1))
+			errs[2] = front.RemoveServer(mustURL("http://unknown"))
+		},
+	}
+	inst.Check = func(*vrt.Exec) []vrt.Failure {
+		if c.get(0) != 3 {
+			return []vrt.Failure{fail("lost-update:roundrobin-refused-admin", "3 requests, handler invoked %d times", c.get(0))}
+		}
+		wa, _ := rr.ServerWeight(a)
+		wb, _ := rr.ServerWeight(b)
+		if errs[0] == nil || errs[1] == nil || errs[2] == nil || len(front.Servers()) != 2 || wa != 1 || wb != 2 {
+			return []vrt.Failure{fail("refused-call-had-an-effect:roundrobin", "refused administration calls (errors %v): pool %v, weights a=%d b=%d (want the pool a=1 b=2 untouched)", errs, front.Servers(), wa, wb)}
+		}
+		return nil
+	}
+	return inst
+}
+
 // roundRobinSticky: sticky sessions make every request take a snapshot of the pool (Servers()) and walk it outside
 // the balancer's lock; the inspector keeps a snapshot across another call. Snapshots belong to their caller:
 // nothing the balancer does later may write to them.
@@ -689,6 +736,8 @@ func Scenarios(tier string) []*sched.Scenario {
 	return []*sched.Scenario{
 		mk("roundrobin", b, up, roundRobin),
 		mk("roundrobin-sticky", b, up, roundRobinSticky),
+		mk("roundrobin-refused-admin", b, up, func() *sched.Instance { return roundRobinRefusedAdmin(false) }),
+		mk("rebalancer-refused-admin", b, up, func() *sched.Instance { return roundRobinRefusedAdmin(true) }),
 		mk("rebalancer", b, up, rebalancer),
 		mk("rebalancer-adjusting", b, up, rebalancerAdjusting),
 		mk("breaker", b, up, breaker),
